@@ -88,6 +88,97 @@ func programs(quick bool) []program {
 	return ps
 }
 
+// systematic family (the same product as C10's, here under concurrency): every kind of constant list x
+// run-time consumers inside a closure that also receives the argument.
+var constStages = []struct{ name, expr string }{
+	{"literal", "[2,4,6,8]"},
+	{"map", "[1,2,3,4].map(e->e*2)"},
+	{"accept", "[2,3,4,5,6,8].accept(e->e%2=0)"},
+	{"top", "[2,4,6,8,10].top(4)"},
+	{"top-lazy", "numbers(10).map(e->e*2+2).top(4)"},
+	{"skip", "[0,2,4,6,8].skip(1)"},
+	{"top-skip", "numbers(10).map(e->e*2).skip(1).top(4)"},
+	{"append", "[2,4,6].append(8)"},
+	{"concat", "[2,4]+[3,4].map(e->e*2)"},
+	{"reverse", "[8,6,4,2].reverse()"},
+	{"order", "[6,2,8,4].order(e->e)"},
+	{"combine", "[1,1,3,3,5].combine((x,y)->x+y)"},
+	{"combine3", "[0,1,1,2,3,3].combine3((x,y,z)->x+y+z)"},
+	{"combineN", "[1,1,3,3,5].combineN(2,l->l[0]+l[1])"},
+	{"number", "[2,3,4,5].number((n,e)->n+e)"},
+	{"compact", "[2,2,4,6,6,8].compact((x,y)->x=y)"},
+	{"cross", "[2,6].cross([0,2],(x,y)->x+y)"},
+	{"merge", "[2,6].merge([4,8],(x,y)->x<y)"},
+	{"iir", "[2,2,2,2].iir(e->e,(e,l)->e+l)"},
+	{"iirCombine", "[2,2,2,2].iirCombine(e->e,(x,xl,yl)->yl+x)"},
+	{"movingWindow", "[2,4,6,8].movingWindow(e->e).map(l->l.last())"},
+	{"replaceList", "[1,2,3,4].replaceList(l->l.map(e->e*2))"},
+	{"eval", "[1,2,3,4].map(e->e*2).eval()"},
+	{"mapReduce", "[2,4,6,8].mapReduce([],(s,e)->s.append(e))"},
+	{"map-member", "{l:[1,2,3,4].map(e->e*2)}.l"},
+	{"nested", "[[2,4,6,8].map(e->e)][0]"},
+	{"numbers", "numbers(5).skip(1).map(e->e*2)"},
+}
+
+// consumers: body of (l,k)->…; l is the shared constant, k the argument
+var constConsumers = []struct{ name, body string }{
+	{"index", "l[k]"},
+	{"first", "l.first()+k"},
+	{"last", "l.last()+k"},
+	{"single", "try l.single() catch k"},
+	{"size", "l.size()+k"},
+	{"sum", "l.sum()+k"},
+	{"string", "l.string()+k"},
+	{"self", "if k=0 then l else l.top(k)"},
+	{"map", "l.map(e->e+k)"},
+	{"accept", "l.accept(e->e>k)"},
+	{"reduce", "l.reduce((x,y)->x+y)+k"},
+	{"top", "l.top(k)"},
+	{"skip", "l.skip(k)"},
+	{"append", "l.append(k)"},
+	{"append2", "[l.append(k), l.append(k+1)]"},
+	{"concat-left", "l+[k]"},
+	{"concat-right", "[k]+l"},
+	{"equal", "l=[2,4,6,8+k]"},
+	{"equal-right", "[2,4,6,8+k]=l"},
+	{"in", "(k*2+2)~l"},
+	{"all-in-left", "[4,2+k]~l"},
+	{"all-in-right", "l~[8,6,4,2,k]"},
+	{"all-in-self", "l~l.map(e->e+k-k)"},
+	{"indexWhere", "l.indexWhere(e->e>k*2)"},
+	{"present", "l.present(e->e>k*4)"},
+	{"minMax", "l.minMax(e->e+k)"},
+	{"order", "l.orderRev(e->e+k)"},
+	{"reverse", "l.reverse().first()+k"},
+	{"set", "l.set(k,0)"},
+	{"combine", "l.combine((x,y)->x+y+k)"},
+	{"cross", "[k].cross(l,(x,y)->x+y)"},
+	{"cross-self", "l.cross(l,(x,y)->x*10+y+k).top(5)"},
+	{"merge", "l.merge([k],(x,y)->x<y)"},
+	{"zip-twice", "[l.sum(),l.size(),l.first()+k]"},
+	{"sum-then-index", "l.sum()+l[k]"},
+	{"half", "l.map(e->if e>4+k then throw(\"late\") else e)"},
+	{"closure", "i->l[i+k]"},
+	{"multiUse", "l.multiUse({s:x->x.sum(),n:x->x.size()+k})"},
+	{"switch", "switch l case [2,4,6,8+k]: 1 default 0"},
+	{"visit", "l.visit(k,(s,e)->s+e)"},
+	{"fsm", "l.fsm((s,e)->goto(s.state+1)).last().state+k"},
+}
+
+func productPrograms(quick bool) []program {
+	keep := map[string]bool{"index": true, "sum": true, "append": true, "map": true, "all-in-right": true}
+	var out []program
+	for _, st := range constStages {
+		for _, c := range constConsumers {
+			if quick && !keep[c.name] {
+				continue
+			}
+			out = append(out, program{"let c=" + st.expr + "; let f=(l,k)->" + c.body + "; f(c,a)", "product: constant " + st.name + " x consumer " + c.name})
+		}
+	}
+	return out
+}
+
 func classifyRace(race string) string {
 	first := race
 	if i := strings.Index(race, "\n"); i >= 0 {
@@ -114,9 +205,14 @@ func run(ctx *bex.Ctx) {
 		maxExecs = 400000
 	}
 	threads := []int{2, 3}
-	for _, p := range programs(ctx.Quick()) {
+	hand := programs(ctx.Quick())
+	all := append(append([]program{}, hand...), productPrograms(ctx.Quick())...)
+	for pi, p := range all {
 		for _, T := range threads {
-			for _, args := range [][]int{{0, 0, 0}, {0, 1, 2}, {1, 0, 1}} {
+			for ai, args := range [][]int{{0, 1, 2}, {0, 0, 0}, {1, 0, 1}} {
+				if pi >= len(hand) && (T > 2 || ai > 0 && ctx.Quick() || ai > 1) {
+					continue // the product family: two evaluations, different arguments (thorough: also equal ones)
+				}
 				idx++
 				if !ctx.Mine(idx) || ctx.Expired() {
 					continue
@@ -277,7 +373,7 @@ func run(ctx *bex.Ctx) {
 			}
 		}
 	}
-	ctx.SpaceDone(fmt.Sprintf("%d programs (lazy / eager / nested constants, constant maps, closures, strings, recursion, failing accesses) x T in %v concurrent evaluations x 3 argument tuples (equal and different); all interleavings at field-access granularity with history-key pruning, then again without pruning with <= 3 (T=3: 2; thorough: +1) preemptions", len(programs(ctx.Quick())), threads))
+	ctx.SpaceDone(fmt.Sprintf("%d product programs (every kind of constant list x run-time consumers) with T=2; %d programs (lazy / eager / nested constants, constant maps, closures, strings, recursion, failing accesses) x T in %v concurrent evaluations x 3 argument tuples (equal and different); all interleavings at field-access granularity with history-key pruning, then again without pruning with <= 3 (T=3: 2; thorough: +1) preemptions", len(productPrograms(ctx.Quick())), len(programs(ctx.Quick())), threads))
 }
 
 func copyMap(m map[string]any) map[string]any {
